@@ -201,9 +201,10 @@ def run_foundation(ctx: Ctx, nn: str, skip: tuple[str, ...] = (), only: tuple[st
     rules, violations, funcs, paths = _from_json(data)
     run = ctx.run
     taken = set()
+    own_texts = {x.text for x in run.rules.values()}
     for st in rules:
-        if st.rule in run.rules:
-            continue
+        if st.rule in run.rules or st.text in own_texts:
+            continue  # the property runs this rule under an id of its own
         if st.rule in skip or (only is not None and st.rule not in only):
             continue
         run.rules[st.rule] = st
